@@ -81,6 +81,10 @@ def int_bounds(kind, w):
 BASE_TRAIL = [(0, 0), (10, 0), (16, 0), (0, 1), (8, 0), (2, 0), (36, 0), (10, 1), (16, 1), (7, 0),
               (36, 1), (3, 1), (35, 0), (11, 0), (2, 1), (8, 1)]
 
+FLT_MAX = float(2 ** 128 - 2 ** 104)
+FLT_MIN = 2.0 ** -126
+DBL_MAX = float(2 ** 1024 - 2 ** 971)
+
 F_BOUNDS = [  # (C expr min, C expr max, python min, python max)
     ("0", "1", 0.0, 1.0), ("-1", "1", -1.0, 1.0), ("-1.5", "2.5", -1.5, 2.5),
     ("0", "1e300", 0.0, 1e300), ("1", "100", 1.0, 100.0),
@@ -88,6 +92,12 @@ F_BOUNDS = [  # (C expr min, C expr max, python min, python max)
     ("-100", "-1", -100.0, -1.0), ("10", "1", 10.0, 1.0),
     ("INT64_MIN", "INT64_MAX", float(I64MIN), float(I64MAX)), ("0", "UINT64_MAX", 0.0, float(U64MAX)),
     ("0.25", "0.75", 0.25, 0.75), ("1e-3", "1e3", 1e-3, 1e3), ("-1e300", "-1e-300", -1e300, -1e-300),
+    # bounds beyond / at / below the range of float (FLT_MAX = (2^24-1)*2^104, FLT_MIN = 2^-126): for a float
+    # target the macro compares the DOUBLE with them and narrows afterwards
+    ("-1e308", "1e308", -1e308, 1e308), ("0", "1e308", 0.0, 1e308),      # the second one is a PARSENUM (p4) site
+    ("-FLT_MAX", "FLT_MAX", -FLT_MAX, FLT_MAX), ("FLT_MIN", "FLT_MAX", FLT_MIN, FLT_MAX),
+    ("0", "1e-40", 0.0, 1e-40), ("1e-300", "1e-39", 1e-300, 1e-39), ("FLT_MAX", "DBL_MAX", FLT_MAX, DBL_MAX),
+    ("-1e39", "-1e-46", -1e39, -1e-46),
 ]
 
 
@@ -169,7 +179,7 @@ def render_inc(sl):
             else:
                 call = "PARSENUM_EX(&x, s, %s, %s, %d, %d)" % (s["cmin"], s["cmax"], s["base"], s["trailing"])
             if s["kind"] == "f":
-                init, rep = "0", "report_f(rc, (double)x)"
+                init, rep = "0", ("report_f32(rc, x)" if s["width"] == 32 else "report_f64(rc, x)")
             elif s["kind"] == "u":
                 init, rep = "0x5a", "report_u(rc, (uintmax_t)x)"
             else:
